@@ -130,6 +130,23 @@ CHECKS = {
              're-read; writes must raise ReadOnlyHistoryError and leave the commit lock free; future points must be refused.',
         note='FileStorage histories without pack; sampled bounds (5 per commit) in quick',
         design='6/C15'),
+    'C17': dict(
+        technique='TLA+ specs ZRecover (transcription of BaseStorage.copy + FileStorage.restore/_data_find at history level, '
+                  'CopyFaithful), ZRecoverTool (fsrecover loop) and ZRecoverScan (transcription of scan(), liveness) model-checked '
+                  'by TLC; TLC histories replayed, copied and compared with the TLC table; recorded runs of the real '
+                  'fsrecover.recover on damaged files validated by TLC (ZRecoverTrace); every scan pattern replayed on the real scan()',
+        text='(a) every TLC behaviour (commit/undo/pack-heavy, directed scenarios, blob records) is replayed on a real source, copied '
+             '(copyTransactionsFrom, BaseStorage.copy, into/out of blob storages, MappingStorage->FileStorage, iterator ranges) and '
+             'the full query table of the copy, also after reopen, and blob bytes must equal what TLC printed; (b) data files of '
+             'TLC histories are damaged at item-boundary positions (thorough: every byte) with 0x00/0xff/./noise or truncated, '
+             'recover() runs under step and wall watchdogs with read_txn_header/scan/tpc_finish/tpc_abort recorded, TLC validates '
+             'every run against the loop model and judges Terminates, prefix-before-damage recovered, output an ordered unchanged '
+             'subsequence, undamaged file identical; (c) TLC proves Terminates for the repaired scan transcription, exhibits the '
+             'F5 lasso with AsCode=TRUE, and the real scan() must give the dumped graph result on every dot/fill pattern.',
+        note='bounded models; single damaged range or truncation per run; transactions touching damaged bytes (own or through '
+             'back-pointers) are exempt from "unchanged"; below a pack time only the record chain is judged (F17); F5 fixed '
+             '(6b5c235), F22 fixed (bb4d219)',
+        design='6/C17'),
     'C18': dict(
         technique='TLA+ spec ZRepozo (transcription of do_backup/find_files/scandat/delete_old_backups, derived recover/verify '
                   'tables) model-checked by TLC; the whole dumped state graph replayed on a real FileStorage + real repozo calls',
